@@ -412,18 +412,33 @@ public:
     std::vector< exchange > inject_event( us_t anchor, const std::vector< central_pdu >& pdus, const event_flags& flags, us_t duration = 0 )
     {
         std::vector< exchange > result;
-        if ( !evt_armed_ ) return result;
-        evt_armed_ = false;
-        t0_ += anchor; now_ = std::max( now_, t0_ );
+        if ( !begin_event( anchor ) ) return result;
 
         if ( pdus.empty() )
-            result.push_back( do_exchange( central_pdu::empty(), false ) );
+            result.push_back( exchange_pdu( central_pdu::empty(), false ) );
         for ( std::size_t i = 0; i != pdus.size(); ++i )
-            result.push_back( do_exchange( pdus[ i ], i + 1 != pdus.size() ) );
+            result.push_back( exchange_pdu( pdus[ i ], i + 1 != pdus.size() ) );
 
+        finish_event( flags, duration );
+        return result;
+    }
+
+    // The same in three steps, for scripts that decide the next PDU after seeing the peripheral's answer
+    // (a central with retransmissions):  begin_event(); exchange_pdu()...; finish_event()
+    bool begin_event( us_t anchor )
+    {
+        if ( !evt_armed_ ) return false;
+        evt_armed_ = false;
+        t0_ += anchor; now_ = std::max( now_, t0_ );
+        return true;
+    }
+
+    exchange exchange_pdu( const central_pdu& pdu, bool more_data ) { return do_exchange( pdu, more_data ); }
+
+    void finish_event( const event_flags& flags, us_t duration = 0 )
+    {
         now_ += duration;
         static_cast< CallBack* >( this )->end_event( flags.to_bluetoe() );
-        return result;
     }
 
     // flags as the nRF52 binding would compute them from the exchanges of one event
